@@ -142,7 +142,10 @@ def judge_angvec(j, R, feat, detail):
     import spatialmath.base as b
     from spatialmath import SO3, SE3, UnitQuaternion
     T = b.r2t(R)
+    T[:3, 3] = [1.0, -2.0, 3.0]                  # a pose with a translation: the extraction reads the rotation only
+    T0 = b.r2t(R)
     routes = {"base.tr2angvec(R)": lambda u: b.tr2angvec(R, unit=u), "base.tr2angvec(T)": lambda u: b.tr2angvec(T, unit=u),
+              "base.tr2angvec(T,no-translation)": lambda u: b.tr2angvec(T0, unit=u),
               "SO3.angvec": lambda u: SO3(R, check=False).angvec(unit=u), "SE3.angvec": lambda u: SE3(T, check=False).angvec(unit=u),
               "UnitQuaternion.angvec": lambda u: UnitQuaternion(SO3(R, check=False)).angvec(unit=u),
               # the same rotation held as the OTHER quaternion of the double cover (negative scalar part)
